@@ -2,6 +2,8 @@
 # usage: trymut2.sh <patch> <prop> [<prop>...]  — applies the patch to /repo, runs tools/bv check for each property (seeds 1,2), reverts
 patch=$1; shift
 cd /repo && git diff --quiet || { echo "repo dirty"; exit 1; }
+# the evidence files describe the UNCHANGED tree: keep them out of the way of the mutated runs
+rm -rf /tmp/evidence.keep && cp -r /verif/evidence /tmp/evidence.keep
 git apply $patch || exit 1
 cd /verif
 for p in "$@"; do for seed in 1 2; do
@@ -10,3 +12,4 @@ done; done
 cd /repo && git checkout -q -- . 
 # leave a harness built against the clean tree behind (protorun does not rebuild on its own)
 cd /verif/harness && cargo build --offline >/dev/null 2>&1
+rm -rf /verif/evidence && cp -r /tmp/evidence.keep /verif/evidence && rm -rf /tmp/evidence.keep
